@@ -601,6 +601,8 @@ impl Engine for C07 {
                     let s = match site {
                         svgdx::verif::Site::ElemEnter => Site::ElemEnter,
                         svgdx::verif::Site::ElemExit { .. } => Site::ElemExit,
+                        svgdx::verif::Site::RngDraw => Site::RngDraw,
+                        svgdx::verif::Site::AttrEval => Site::AttrEval,
                     };
                     ts3.yield_point(tid, s);
                 })));
@@ -648,6 +650,8 @@ impl Engine for C07 {
                 1 => "switch_inside_reader_call",
                 2 => "switch_inside_writer_session",
                 3 | 4 => "switch_inside_element_list",
+                6 => "switch_at_prng_draw",
+                7 => "switch_inside_attribute_evaluation",
                 5 => "switch_at_request_boundary",
                 _ => "switch_other",
             };
